@@ -245,7 +245,7 @@ C08_GRID_RULE = ('grid at the limit: FixedCapacityVector N in {1,2,3,7,15} sizes
 def check_C08(tier, seed, t0):
     cases, maxlen = budget(tier, (30000, 50), (300000, 60))
     names = C.vec_subset(C.is_8bit)
-    parts = [enum_part('C08', 'exhaustive_grid', [enum_unit('exh_c08', 'targets/exh_c08.cpp')], seed, tier, C08_GRID_RULE, shards=12),
+    parts = [enum_part('C08', 'exhaustive_grid', [enum_unit('exh_c08', 'targets/exh_c08.cpp'), enum_unit('static_c14', 'targets/static_c14.cpp')], seed, tier, C08_GRID_RULE, shards=12),
              interp_part('C08', 'vector_histories', vec_jobs(names, cases, maxlen), seed, VEC_RULES['C08'], True, crash_class_codes=[44, 32])]
     parts[1].coverage['exhaustive'] = False
     return finish('C08', tier, seed, 'exploration', parts, C08_GRID_RULE + ' || histories: ' + VEC_RULES['C08'], ASSUME_COMMON, t0)
@@ -297,6 +297,10 @@ def check_C14(tier, seed, t0):
                              'FlatSet-backed SmallSet tapes with RELOCATE; non-trivial = relocation followed by >=3 mutating ops', True, crash_class_codes=[28]))
     parts.append(interp_part('C14', 'flatset_histories', fs_jobs(fsn, cases, maxlen), seed,
                              'FlatSet tapes with RELOCATE; non-trivial = relocation followed by >=3 mutating ops', True, crash_class_codes=[29]))
+    parts.append(enum_part('C14', 'static_trait_table', [enum_unit('static_c14', 'targets/static_c14.cpp')], seed, tier,
+                           'converse part: 13 element types (incl. std::string, opted-out, nested pairs) x 5 comparators (std::less, trivially copyable with state, '
+                           'declared relocatable, self-pointing, std::function): the trait of the element/comparator and the claim of vector, SmallVector, '
+                           'FixedCapacityVector, FlatSet over vector/SmallVector, SmallSet over FlatSet/std::set against values written down per part'))
     parts += fuzz_parts('C14', tier, seed, ('vec', 'fs', 'ss'), True)
     return finish('C14', tier, seed, 'exploration', parts, VEC_RULES['C14'], ASSUME_COMMON, t0)
 
@@ -487,7 +491,10 @@ def check_C17(tier, seed, t0, only=None):
     cov = {'evaluations': r['evaluated'], 'distinct_nontrivial': nt * nstd if not r['bad'] else nt * nstd, 'rule': C17_RULE, 'samples': samples,
            'rows_per_standard': len(r['rows']), 'standards': r['stds'], 'mismatches': len(r['bad']), 'exhaustive': False}
     part = Part('static_matrix', cov, viol, r['wall'])
-    return finish('C17', tier, seed, 'exploration', [part], C17_RULE,
+    part2 = enum_part('C17', 'comparator_and_pair_trait_table', [enum_unit('static_c14', 'targets/static_c14.cpp')], seed, tier,
+                      'trait table over element types x comparator types (see C14 static part): each container typedef is the conjunction of its parts')
+    part2.coverage['exhaustive'] = False
+    return finish('C17', tier, seed, 'exploration', [part, part2], C17_RULE,
                   ['the evaluator is g++ 12 on x86-64 (sizeof(void*) == 8); the converse of the noexcept implications is not demanded'], t0)
 
 
@@ -559,7 +566,7 @@ def all_units():
         us += [vec_unit(n, s) for n in C.VEC_MULTISTD]
     us += [fs_unit(n) for n, _ in C.FS_CONFIGS]
     us += [fault_unit(n) for n, _ in FAULT_CONFIGS]
-    us += c15_units() + [race_unit()] + c13_units() + [enum_unit('exh_c10', 'targets/exh_c10.cpp'), enum_unit('exh_c08', 'targets/exh_c08.cpp')]
+    us += c15_units() + [race_unit()] + c13_units() + [enum_unit('exh_c10', 'targets/exh_c10.cpp'), enum_unit('exh_c08', 'targets/exh_c08.cpp'), enum_unit('static_c14', 'targets/static_c14.cpp')]
     from . import c16
     us += [c16.unit(cfg, b) for cfg in c16.VEC + c16.FS + c16.SS for b in c16.QUICK_BUILDS if not (cfg in c16.SS and b[0] in ('11', '14'))]
     us += [enum_unit('exh_c12', 'targets/exh_c12.cpp'), enum_unit('growth_c18', 'targets/growth_c18.cpp', kind='plain'),
@@ -572,25 +579,24 @@ def all_units():
 
 def replay(prop, path):
     """./check Cxx --replay file: rebuild what is needed, run the case once, exit 1 if it still fails"""
-    if prop == 'C16':
-        lines = open(path).read().splitlines()
-        kv = dict(x.split('=', 1) for x in lines[0].split('#')[0].split() if '=' in x)
-        if kv.get('config') == 'absence':
-            return check_C16('quick', 1, time.time())
-        ops = [l for l in lines[1:] if l.strip() and l.strip()[0].isdigit()]
-        return check_C16('quick', 1, time.time(), only=(kv['config'], int(kv.get('level', 2)), ops))
-    if prop == 'C17':
-        from . import c17
-        keys = [l[5:].strip() for l in open(path).read().splitlines() if l.startswith('case ')]
-        return check_C17('quick', 1, time.time(), only=[c17.parse_rid(k) for k in keys])
-    header, ops = D.read_tape(path)
-    kv = dict(x.split('=', 1) for x in header.split('#')[0].split() if '=' in x)
+    lines = open(path).read().splitlines()
+    kv = dict(x.split('=', 1) for x in lines[0].split('#')[0].split() if '=' in x) if lines else {}
     cfg = kv.get('config', '')
     unit = None
     for u in all_units():
         if u.name == cfg:
             unit = u
+    if unit is None and prop == 'C16':
+        if cfg == 'absence':
+            return check_C16('quick', 1, time.time())
+        ops = [l for l in lines[1:] if l.strip() and l.strip()[0].isdigit()]
+        return check_C16('quick', 1, time.time(), only=(cfg, int(kv.get('level', 2)), ops))
+    if unit is None and prop == 'C17':
+        from . import c17
+        keys = [l[5:].strip() for l in lines if l.startswith('case ')]
+        return check_C17('quick', 1, time.time(), only=[c17.parse_rid(k) for k in keys])
     if unit is None:
+        from . import fuzz
         print('replay: unknown config %r' % cfg)
         return 2
     exe = D.ensure_built([unit])[unit.name]
